@@ -12,7 +12,10 @@ def arr(x):
 # ------------------------------------------------------------------ spec -> description
 def desc_from_spec(spec):
     def desc(a):
-        xs = [a.dvar(tuple(d['shape']), d.get('vtype', 'C')) for d in spec.get('dv', [])]
+        # decision variables flagged 'late' are declared by the real side only after the first row was added AND the model was
+        # formulated once (re-solving after adding variables must equal building the final model from scratch)
+        xs = [None if (d.get('late') and a.kind == 'real') else a.dvar(tuple(d['shape']), d.get('vtype', 'C'))
+              for d in spec.get('dv', [])]
         zs = [a.rvar(tuple(s)) for s in spec.get('rv', [])]
         ys = []
         for l in spec.get('ldr', []):
@@ -26,6 +29,8 @@ def desc_from_spec(spec):
         sets = [a.uset(*[set_cons(a, zs, sc) for sc in s]) for s in spec.get('sets', [])]
         for b in spec.get('bounds', []):
             x = xs[b['x']]
+            if x is None:
+                continue
             if b.get('lo') is not None:
                 a.st(a.ge(x, b['lo']))
             if b.get('hi') is not None:
@@ -79,7 +84,7 @@ def desc_from_spec(spec):
             kinds[dcount[0] % len(kinds)]()
             dcount[0] += 1
 
-        if 'objective_first' in hist or 'formulate_between' in hist or 'solve_between' in hist:
+        if 'objective_first' in hist or 'formulate_between' in hist or 'solve_between' in hist or any(x_ is None for x_ in xs):
             objective()
             obj_done = True
         else:
@@ -100,12 +105,18 @@ def desc_from_spec(spec):
             for c, row in built:
                 a.st(c)
         else:
+            built_rows = {}
             for ri, row in enumerate(rows):
                 if 'decoy_sets' in hist:
                     decoy()
                 e = expr(a, xs, Y, zs, row['e'])
                 rhs = arr(row['rhs']) if isinstance(row['rhs'], list) else row['rhs']
-                c = {'le': a.le, 'ge': a.ge, 'eq': a.eq}[row['sense']](e, rhs)
+                if real and row.get('same_object_as') is not None:
+                    # the SAME constraint object is given to the model twice, each time with its own forall() set
+                    c = built_rows[row['same_object_as']]
+                else:
+                    c = {'le': a.le, 'ge': a.ge, 'eq': a.eq}[row['sense']](e, rhs)
+                built_rows[ri] = c
                 a.note('row', e, rhs, row['sense'])
                 if 'decoy_sets' in hist:
                     decoy()
@@ -125,6 +136,26 @@ def desc_from_spec(spec):
                             a.m.get()
                         except Exception:
                             pass
+                if ri == 0 and any(x_ is None for x_ in xs):
+                    if not obj_done and spec['obj'].get('late_ok'):
+                        pass
+                    from .util import quiet as _q
+                    with _q():
+                        a.m.do_math()
+                        if spec.get('late_solve'):
+                            try:
+                                a.m.solve(display=False)
+                            except Exception:
+                                pass
+                    for k_, d_ in enumerate(spec.get('dv', [])):
+                        if xs[k_] is None:
+                            xs[k_] = a.dvar(tuple(d_['shape']), d_.get('vtype', 'C'))
+                    for b in spec.get('bounds', []):
+                        if spec['dv'][b['x']].get('late'):
+                            if b.get('lo') is not None:
+                                a.st(a.ge(xs[b['x']], b['lo']))
+                            if b.get('hi') is not None:
+                                a.st(a.le(xs[b['x']], b['hi']))
                 if 'extra_decl' in hist and ri == 0:
                     a.m.do_math() if obj_done else None
                     a.m.dvar(2)
@@ -373,6 +404,21 @@ def core_specs():
             rows=[dict(e=[['xz', 0, 0, I2], ['x', 1, -1.0]], sense='le', rhs=0, set=0),
                   dict(e=[['xz', 0, 0, [[1, 0], [0, -2]]], ['x', 2, -1.0]], sense='le', rhs=0, set=1)],
             obj=dict(kind='min', e=[['x', 1, 1.0], ['x', 2, 1.0], ['x', 0, [0.25, 0.25]]]))
+    # 3a'''. an INTEGER variable declared after the model was formulated (auxiliary columns of the first formulation lie
+    #       between the early and the late variables)
+    for tag, solve in (('formulation', False), ('solve', True)):
+        add('late-int-after-%s' % tag, dv=[dict(shape=[2]), dict(shape=[], vtype='I', late=True)], rv=[[2]], sets=[box(-1, 1)],
+            bounds=[dict(x=0, lo=-4, hi=4), dict(x=1, lo=-3, hi=1.5)], late_solve=solve,
+            rows=[dict(e=[['x', 0, [1, 1]], ['xz', 0, 0, [[0.5, 0], [0, 0.25]]]], sense='le', rhs=3),
+                  dict(e=[['x', 0, [1, 1]], ['x', 1, -1.0]], sense='le', rhs=0.25)],
+            obj=dict(kind='minmax', set=0, e=[['x', 0, [-1, -1]], ['z', 0, [0.5, 0.5]]]))
+    # 3a''''. one constraint OBJECT used twice, each time with its own forall() set: each copy in the model keeps its set
+    add('same-constraint-two-sets', dv=[dict(shape=[2]), dict(shape=[])], rv=[[2]],
+        sets=[box([0, 0], [3, 1]), box([-5, -1], [1, 2])],
+        bounds=[dict(x=0, lo=0.5, hi=2), dict(x=1, lo=-20, hi=20)],
+        rows=[dict(e=[['xz', 0, 0, [[1, 0], [0, 1]]], ['x', 1, -1.0]], sense='le', rhs=0, set=0),
+              dict(e=[['xz', 0, 0, [[1, 0], [0, 1]]], ['x', 1, -1.0]], sense='le', rhs=0, set=1, same_object_as=0)],
+        obj=dict(kind='min', e=[['x', 1, 1.0], ['x', 0, [0.25, 0.25]]]))
     # 3b. strictly negative / strictly positive boxes (bound objects with ub < 0 and lb > 0)
     add('static-box-negative', dv=[dict(shape=[2])], rv=[[2]], sets=[box([-3, 0.5], [-1, 2])], bounds=bx,
         rows=[dict(e=[['x', 0, [1, 2]], ['xz', 0, 0, [[1, 1], [0, -1]]]], sense='le', rhs=9),
